@@ -116,6 +116,32 @@ func extractC11Wire(l *lean, issF, verF *ast.File) {
 	sconds, _ := c11IfChain(c11Method(valF, "", "validateCredentialStatus"))
 	l.def("validateCredentialStatusChain", "List String", leanStrList(sconds), sconds)
 
+	// vcr/ambassador.go: the REPROCESS path (content-type switch of getCallbackFn, top-level chain of handleReprocessEvent)
+	_, ambF := parseFile("vcr/ambassador.go")
+	cb, _ := c11IfChain(c11Method(ambF, "ambassador", "getCallbackFn"))
+	l.def("ambassadorCallbackSwitch", "List String", leanStrList(cb), cb)
+	rp, _ := c11IfChain(c11Method(ambF, "ambassador", "handleReprocessEvent"))
+	l.def("ambassadorReprocessChain", "List String", leanStrList(rp), rp)
+	_, tcF := parseFile("vcr/types/constants.go")
+	for _, d := range tcF.Decls {
+		gd, ok := d.(*ast.GenDecl)
+		if !ok {
+			continue
+		}
+		for _, sp := range gd.Specs {
+			if vs, ok := sp.(*ast.ValueSpec); ok {
+				for i, n := range vs.Names {
+					if (n.Name == "VcDocumentType" || n.Name == "RevocationLDDocumentType") && i < len(vs.Values) {
+						if bl, ok := vs.Values[i].(*ast.BasicLit); ok {
+							v := strings.Trim(bl.Value, "\"")
+							l.def("const_"+n.Name, "String", strconv.Quote(v), v)
+						}
+					}
+				}
+			}
+		}
+	}
+
 	// the literal returned by Entry(): field:value pairs in source order
 	var lit []string
 	if fn := c11Method(issF, "StatusList2021", "Entry"); fn != nil {
